@@ -21,11 +21,17 @@ def sizerMax (s : String) (all : List Member) : Int :=
   | some (.mk _ (.prim p) _) => (primRange p).2
   | _ => 0
 
+/-- `sizer` stands for a counter: it is a value of a struct member only, never of an optional's
+    value, an array element or a union arm -/
+def Val.isCounter : Val → Bool
+  | .sizer => true
+  | _ => false
+
 mutual
   def hasField (all : List Member) (k : MKind) : Ty → Val → Bool
     | _, .sizer => (match k with | .plain => true | _ => false)
     | _, .absent => (match k with | .optional => true | _ => false)
-    | t, .present x => (match k with | .optional => true | _ => false) && hasField all .plain t x
+    | t, .present x => (match k with | .optional => true | _ => false) && !x.isCounter && hasField all .plain t x
     | t, .bytes b =>
       (match t with | .byte => true | _ => false) &&
       (match k with
@@ -49,7 +55,7 @@ mutual
     | .union _ arms, .union idx v =>
       (match k with | .plain => true | _ => false) &&
       (match arms[idx]? with
-       | some (.mk _ _ t) => hasField [] .plain t v
+       | some (.mk _ _ t) => !v.isCounter && hasField [] .plain t v
        | none => false)
     | _, _ => false
   def hasMs (all : List Member) : List Member → List Val → Bool
@@ -61,7 +67,7 @@ mutual
     | _, _ => false
   def hasElems : Ty → List Val → Bool
     | _, [] => true
-    | t, x :: xs => hasField [] .plain t x && hasElems t xs
+    | t, x :: xs => !x.isCounter && hasField [] .plain t x && hasElems t xs
 end
 
 /-- `v` is a value of message type `t` -/
